@@ -330,3 +330,111 @@ async fn run(case: &Case) -> Outcome {
 pub fn parts() -> Vec<Box<dyn DynPart>> {
     vec![Box::new(Gen::new(C02, 300_000, 10_000_000))]
 }
+
+// ---------------------------------------------------------------------------------------
+// Parts `sqlite-backend` / `lmdb-backend`: the same oracle with the bundled backends underneath (no fault
+// injection: a real backend cannot be made to fail part-way on demand).
+
+pub mod backend {
+    use datacake_lmdb::LmdbStorage;
+    use datacake_sqlite::SqliteStorage;
+    use serde_json::{json, Value};
+
+    use super::{req_json, Req, ReqGen};
+    use crate::core::{Outcome, Prop, Src};
+    use crate::registry::{DynPart, Gen};
+
+    #[derive(Debug, Clone)]
+    pub struct Case {
+        pub reqs: Vec<Req>,
+    }
+
+    pub struct OnBackend {
+        pub lmdb: bool,
+    }
+
+    impl Prop for OnBackend {
+        type Case = Case;
+
+        fn id(&self) -> &'static str {
+            "C02"
+        }
+
+        fn part(&self) -> &'static str {
+            if self.lmdb {
+                "lmdb-backend"
+            } else {
+                "sqlite-backend"
+            }
+        }
+
+        fn width(&self) -> usize {
+            25 * 26 + 8
+        }
+
+        fn breadcrumbs(&self) -> bool {
+            true
+        }
+
+        fn process_isolated(&self) -> bool {
+            self.lmdb
+        }
+
+        fn shrink_budget(&self) -> usize {
+            400
+        }
+
+        fn gen(&self, src: &mut Src) -> Case {
+            let mut g = ReqGen::new(src);
+            g.n_ks = 1 + src.below(3);
+            let n = 1 + src.below(25);
+            Case { reqs: (0..n).map(|_| g.req(src)).collect() }
+        }
+
+        fn run(&self, case: &Case) -> Outcome {
+            let dir = crate::c17::scratch_dir();
+            let lives = vec![case.reqs.clone()];
+            let r = if self.lmdb {
+                crate::c07::backend::run_lives_with::<LmdbStorage, _, _>(
+                    &lives,
+                    &dir,
+                    |d| async move { LmdbStorage::open(&d).await.map_err(|e| e.to_string()) },
+                    |s: &LmdbStorage| Some(s.handle().env().clone()),
+                    true,
+                )
+            } else {
+                crate::c07::backend::run_lives_with::<SqliteStorage, _, _>(
+                    &lives,
+                    &dir,
+                    |d| async move { SqliteStorage::open(format!("{d}/db.sqlite")).await.map_err(|e| e.to_string()) },
+                    |_| None,
+                    true,
+                )
+            };
+            let _ = std::fs::remove_dir_all(&dir);
+            r
+        }
+
+        fn describe(&self, case: &Case) -> Value {
+            json!(case.reqs.iter().map(req_json).collect::<Vec<_>>())
+        }
+
+        fn rule(&self) -> &'static str {
+            "1-25 keyspace requests (set / del / bulk / purge with generated stamps, origins, sources, 1-3 keyspaces) on \
+             a real KeyspaceGroup over the real SqliteStorage (file) / LmdbStorage in /dev/shm; oracle: after every \
+             request and for every keyspace the deserialised set (live ids, tombstones, stamps) equals what \
+             iter_metadata of the backend returns, and the same again after closing, reopening and reloading; \
+             non-trivial = the final state holds >=1 tombstone and >=1 live id"
+        }
+    }
+
+    pub fn parts() -> Vec<Box<dyn DynPart>> {
+        vec![Box::new(Gen::new(OnBackend { lmdb: false }, 6_000, 200_000)), Box::new(Gen::new(OnBackend { lmdb: true }, 20_000, 600_000))]
+    }
+}
+
+pub fn parts_all() -> Vec<Box<dyn DynPart>> {
+    let mut p = parts();
+    p.extend(backend::parts());
+    p
+}
